@@ -15,6 +15,7 @@ import (
 	"net"
 	"os"
 	"strings"
+	"sync"
 	"sync/atomic"
 	"time"
 )
@@ -557,7 +558,146 @@ func c19Burst(f []string) vResult {
 	return res
 }
 
+// dclose <rounds>: two goroutines Close the SAME accepted conn at the same time (a reader that closes on error while the
+// owner closes on shutdown) while a second conn of the same session stays open: the conn gives its session reference back
+// once - the other conn keeps working and closes without a panic
+func c19DoubleClose(f []string) vResult {
+	res := vResult{noModel: true, out: []string{"done"}, tags: []string{"one-conn-closed-by-two-goroutines"}}
+	rounds := vAtoi(f[1])
+	if rounds < 1 || rounds > 2000 {
+		res.out = []string{"bad-op"}
+		return res
+	}
+	internalLogger = &logger{"", io.Discard, 3}
+	k := atomic.AddUint64(&c19Seq, 1)
+	prefix := fmt.Sprintf("/dev/shm/verif_c19d_%d_%d", os.Getpid(), k)
+	path := fmt.Sprintf("/tmp/verif_c19d_%d_%d.sock", os.Getpid(), k)
+	os.Remove(path)
+	raw, err := net.Listen("unix", path)
+	if err != nil {
+		res.specFail, res.key = "listen: "+err.Error(), "setup"
+		return res
+	}
+	ln := newListener(raw, 64)
+	defer os.Remove(path)
+	var cs *Session
+	for attempt, t0 := 0, time.Now(); attempt < 5 || time.Since(t0) < 45*time.Second; attempt++ {
+		conn, derr := net.Dial("unix", path)
+		if derr != nil {
+			err = derr
+			break
+		}
+		if cs, err = newSession(c12Config(fmt.Sprintf("%s_r%d", prefix, attempt), MemMapTypeMemFd), conn, true); err == nil {
+			break
+		}
+		conn.Close()
+		time.Sleep(200 * time.Millisecond)
+	}
+	if err != nil || cs == nil {
+		ln.Close()
+		res.specFail, res.key = fmt.Sprintf("client session: %v", err), "setup"
+		return res
+	}
+	defer func() {
+		ln.Close()
+		c12CloseSession(cs)
+	}()
+	open1 := func(tag byte) (*Stream, net.Conn, error) {
+		st, err := cs.OpenStream()
+		if err != nil {
+			return nil, nil, err
+		}
+		st.SetDeadline(time.Now().Add(10 * time.Second))
+		if _, err := st.Write([]byte{tag}); err != nil {
+			return nil, nil, err
+		}
+		type ac struct {
+			c   net.Conn
+			err error
+		}
+		ch := make(chan ac, 1)
+		go func() { c, err := ln.Accept(); ch <- ac{c, err} }()
+		select {
+		case a := <-ch:
+			if a.err != nil {
+				return nil, nil, a.err
+			}
+			a.c.SetDeadline(time.Now().Add(10 * time.Second))
+			b := make([]byte, 1)
+			if _, err := io.ReadFull(a.c, b); err != nil || b[0] != tag {
+				return nil, nil, fmt.Errorf("reading the tag: %x %v", b, err)
+			}
+			return st, a.c, nil
+		case <-time.After(10 * time.Second):
+			return nil, nil, fmt.Errorf("the stream did not surface within 10 s")
+		}
+	}
+	for r := 0; r < rounds && res.specFail == ""; r++ {
+		_, connA, err := open1(0xA1)
+		if err != nil {
+			res.specFail, res.key = "round set-up: "+err.Error(), "setup"
+			break
+		}
+		stB, connB, err := open1(0xB2)
+		if err != nil {
+			res.specFail, res.key = "round set-up: "+err.Error(), "setup"
+			break
+		}
+		var ready int32
+		var wg sync.WaitGroup
+		var pan atomic.Value
+		for g := 0; g < 2; g++ {
+			wg.Add(1)
+			go func() {
+				defer wg.Done()
+				defer func() {
+					if e := recover(); e != nil {
+						pan.Store(fmt.Sprint(e))
+					}
+				}()
+				atomic.AddInt32(&ready, 1)
+				for i := 0; atomic.LoadInt32(&ready) < 2 && i < 50000000; i++ {
+				}
+				connA.Close()
+			}()
+		}
+		wg.Wait()
+		// the other conn of the session still works ...
+		werr := func() (e error) {
+			defer func() {
+				if x := recover(); x != nil {
+					pan.Store(fmt.Sprint(x))
+				}
+			}()
+			stB.SetDeadline(time.Now().Add(10 * time.Second))
+			if _, err := stB.Write([]byte{0x5A}); err != nil {
+				return err
+			}
+			b := make([]byte, 1)
+			connB.SetDeadline(time.Now().Add(10 * time.Second))
+			if _, err := io.ReadFull(connB, b); err != nil {
+				return err
+			}
+			// ... and closes like any conn
+			return connB.Close()
+		}()
+		stB.Close()
+		if p := pan.Load(); p != nil {
+			// S (C19): Close works as on a socket - also when it is called twice at once
+			res.specFail, res.key = fmt.Sprintf("round %d: one accepted conn was closed by two goroutines at the same time; then using / closing ANOTHER conn of the same session panicked: %v", r, p), "double-close-gives-reference-twice"
+		} else if werr != nil {
+			res.specFail, res.key = fmt.Sprintf("round %d: one accepted conn was closed by two goroutines at the same time; another conn of the same session then failed: %v", r, werr), "double-close-gives-reference-twice"
+		}
+	}
+	return res
+}
+
 func c19Exec(ops []string) vResult {
+	if len(ops) == 1 && strings.HasPrefix(ops[0], "dclose ") {
+		if f := vFields(ops[0]); len(f) == 2 {
+			return c19DoubleClose(f)
+		}
+	}
 	if len(ops) == 1 && strings.HasPrefix(ops[0], "burst ") {
 		if f := vFields(ops[0]); len(f) == 2 {
 			return c19Burst(f)
@@ -616,6 +756,9 @@ func c19Exec(ops []string) vResult {
 }
 
 func c19Gen(r *rand.Rand, tier string, idx int) []string {
+	if idx%40 == 31 {
+		return []string{fmt.Sprintf("dclose %d", 100+r.Intn(200))}
+	}
 	if idx%40 == 17 {
 		return []string{fmt.Sprintf("burst %d", []int{5, 40, 1040, 1200}[r.Intn(4)])}
 	}
